@@ -332,6 +332,7 @@ type TeletextOptions struct {
 // makes the result depend on the reader being seekable and on the size of its reads
 type teletextReader struct {
 	buf  []byte // what has been read so far, as long as the demuxer may still rewind
+	err  error  // what the input has failed with, the end of the input excepted
 	keep bool
 	pos  int
 	r    io.Reader
@@ -363,6 +364,8 @@ func (t *teletextReader) Read(p []byte) (n int, err error) {
 	}
 	if err == io.EOF && n > 0 {
 		err = nil
+	} else if err != nil && err != io.EOF {
+		t.err = err
 	}
 	return
 }
@@ -386,6 +389,14 @@ func ReadFromTeletext(r io.Reader, o TeletextOptions) (s *Subtitles, err error) 
 	s = &Subtitles{}
 	var tr = &teletextReader{keep: true, r: r}
 	var dmx = astits.NewDemuxer(context.Background(), tr)
+
+	// The demuxer takes an io.ErrUnexpectedEOF of its input for the end of the stream: an input that has failed is
+	// reported whatever the demuxer made of the error
+	defer func() {
+		if tr.err != nil && (err == nil || err == ErrNoValidTeletextPID) {
+			err = fmt.Errorf("astisub: reading failed: %w", tr.err)
+		}
+	}()
 
 	// Get the teletext PID
 	var pid uint16
